@@ -63,6 +63,14 @@ structure PNode where
   succ : Option Nat := none
   sibling : Option Nat := none
   ciExt : Nat := 0
+  /-- the fields below are not read by the step relation; they are what `psubtree_add_trans` decides the
+  sharing of pnodes by (`hmm_nonmpx_ssid`) and what it records (`hmm.tmatid`, `ppos`, the context set `ctxt`
+  as a bit mask over CI phones, `logs2prob`) — `Model/SearchLex.lean` builds them, the driver compares them -/
+  ssid : Nat := 0
+  tmatid : Nat := 0
+  ppos : Nat := 0
+  ctxt : Nat := 0
+  logs2prob : Int := 0
 deriving Repr, DecidableEq, Inhabited
 
 /-- `fsg_lextree_t`: all pnodes (index = id given by the dump), `root[s]`, and `ctx->n_emit_state` -/
